@@ -56,9 +56,14 @@ class XMLDocParser:
         documenting_index = self.determine_documenting_index(
             cpp_class, cpp_method, method_args_names, member_defs)
 
+        # More overloads with these parameter names were wrapped than are documented:
+        # the remaining ones have no documentation.
+        if documenting_index >= len(member_defs):
+            return ""
+
         # Extract the docs for the function that matches cpp_class.cpp_method(*method_args_names).
         return self.get_formatted_docstring(member_defs[documenting_index],
-                                            ignored_params) if member_defs else ""
+                                            ignored_params)
 
     def get_member_defs(self, xml_folder: str, cpp_class: str,
                         cpp_method: str):
